@@ -394,14 +394,16 @@ def run_chain(case, tmp):
             for i in range(len(m)):
                 m[i] = arr(m[i]) * np.exp(1j * (0.3 + 0.2 * i))
         apply_gauge(m, case["gauge"])
-        m.coeff = complex(*case["coeff"]) if cplx_now else float(case["coeff"][0])
+        if not case.get("default_coeff"):
+            m.coeff = complex(*case["coeff"]) if cplx_now else float(case["coeff"][0])
         if kind == "mpdm":
             obj = mpo.apply(MpDm.from_mps(m))      # MpDm.from_mps casts to real: build real, make complex afterwards
             if case["cplx"]:
                 obj = obj.to_complex()
                 for i in range(len(obj)):
                     obj[i] = arr(obj[i]) * np.exp(1j * (0.3 + 0.2 * i))
-            obj.coeff = complex(*case["coeff"]) if case["cplx"] else float(case["coeff"][0])
+            if not case.get("default_coeff"):
+                obj.coeff = complex(*case["coeff"]) if case["cplx"] else float(case["coeff"][0])
         else:
             obj = m
     if case.get("spill"):
@@ -472,7 +474,8 @@ def run_tree(case, tmp):
     if "compress" in case["gauge"]:
         t.compress_config.bond_dim_max_value = 3
         t.compress()
-    t.coeff = complex(*case["coeff"]) if case["cplx"] else float(case["coeff"][0])
+    if not case.get("default_coeff"):
+        t.coeff = complex(*case["coeff"]) if case["cplx"] else float(case["coeff"][0])
     info = {"nodes": len(t.node_list), "bond_dims": [int(x) for x in np.asarray(t.bond_dims).ravel()], "coeff": repr(t.coeff),
             "dtype": str(t.node_list[0].tensor.dtype)}
     fname = os.path.join(tmp, "tree_%s.npz" % case["id"])
